@@ -199,6 +199,9 @@ func fpConst(f float64) *Term {
 func fpTerm(v value) *Term {
 	switch v := v.(type) {
 	case symFloat:
+		if v.t == nil && v.num != nil {
+			return &Term{S: "(fp.div RNE ((_ to_fp 11 53) RNE (to_real " + v.num.S + ")) " + fpConst(float64(v.den)).S + ")", Sort: SFP}
+		}
 		return v.t
 	case float64:
 		return fpConst(v)
@@ -503,6 +506,136 @@ func floorDiv(a, b *big.Int) *big.Int {
 	return q // DivMod is Euclidean; for b>0 this is floor
 }
 
+// ---- exact rational view of floats derived from symbolic integers ----
+// A symFloat with num set stands for the rational num/den (den > 0, a constant). Conversions from symbolic
+// integers, + and - between such values, and * and / by constants are computed exactly as rationals, and
+// comparisons are decided with integers. This equals IEEE double arithmetic whenever every intermediate result is
+// representable (dyadic values with < 53 significant bits, e.g. the eviction-cost formula); the SMT FloatingPoint
+// term is only built when an operation outside this fragment is needed.
+
+type rat struct {
+	num *Term
+	den *big.Int
+}
+
+// asRat views a float value as an exact rational.
+func asRat(v value) (rat, bool) {
+	switch x := v.(type) {
+	case symFloat:
+		if x.num != nil {
+			return rat{x.num, big.NewInt(x.den)}, x.den > 0
+		}
+	case float64:
+		if math.IsNaN(x) || math.IsInf(x, 0) {
+			return rat{}, false
+		}
+		r, _ := new(big.Rat).SetString(new(big.Float).SetFloat64(x).Text('f', -1))
+		if r == nil {
+			return rat{}, false
+		}
+		return rat{intConst(r.Num()), r.Denom()}, true
+	}
+	return rat{}, false
+}
+
+func mulTerm(t *Term, c *big.Int) *Term {
+	if c.Cmp(big.NewInt(1)) == 0 {
+		return t
+	}
+	r := &Term{S: "(* " + bigStr(c) + " " + t.S + ")", Sort: SInt}
+	if t.lo != nil && t.hi != nil {
+		a, b := new(big.Int).Mul(c, t.lo), new(big.Int).Mul(c, t.hi)
+		r.lo, r.hi = minBig(a, b), maxBig(a, b)
+	}
+	return r
+}
+
+func mkRat(num *Term, den *big.Int) (value, bool) {
+	if !den.IsInt64() {
+		return nil, false
+	}
+	if num.lo != nil && num.hi != nil && num.lo.Cmp(num.hi) == 0 {
+		f, _ := new(big.Rat).SetFrac(num.lo, den).Float64()
+		return f, true
+	}
+	return symFloat{num: num, den: den.Int64()}, true
+}
+
+// ratBinop computes x op y exactly when both sides have a rational view and the result stays in the fragment.
+func ratBinop(op token.Token, x, y value) (value, bool) {
+	if !isSym(x) && !isSym(y) {
+		return nil, false
+	}
+	a, ok1 := asRat(x)
+	b, ok2 := asRat(y)
+	if !ok1 || !ok2 {
+		return nil, false
+	}
+	cmp := func(o string) (value, bool) {
+		g := new(big.Int).GCD(nil, nil, a.den, b.den)
+		return mkBool(tCmp(o, mulTerm(a.num, new(big.Int).Div(b.den, g)), mulTerm(b.num, new(big.Int).Div(a.den, g)))), true
+	}
+	switch op {
+	case token.ADD, token.SUB:
+		g := new(big.Int).GCD(nil, nil, a.den, b.den)
+		den := new(big.Int).Div(new(big.Int).Mul(a.den, b.den), g) // least common denominator
+		l, r := mulTerm(a.num, new(big.Int).Div(den, a.den)), mulTerm(b.num, new(big.Int).Div(den, b.den))
+		o := "+"
+		if op == token.SUB {
+			o = "-"
+		}
+		t := &Term{S: "(" + o + " " + l.S + " " + r.S + ")", Sort: SInt}
+		if op == token.ADD {
+			t.lo, t.hi = addB(l.lo, r.lo), addB(l.hi, r.hi)
+		} else {
+			t.lo, t.hi = subB(l.lo, r.hi), subB(l.hi, r.lo)
+		}
+		return mkRat(t, den)
+	case token.MUL, token.QUO:
+		// one side must be a constant
+		var c rat
+		var s rat
+		switch {
+		case !isSym(y):
+			c, s = b, a
+		case !isSym(x) && op == token.MUL:
+			c, s = a, b
+		default:
+			return nil, false
+		}
+		cn := c.num.lo // constant: lo == hi
+		if cn == nil || cn.Sign() == 0 {
+			return nil, false
+		}
+		var num *Term
+		var den *big.Int
+		if op == token.MUL {
+			num, den = mulTerm(s.num, cn), new(big.Int).Mul(s.den, c.den)
+		} else {
+			num, den = mulTerm(s.num, c.den), new(big.Int).Mul(s.den, cn)
+		}
+		if den.Sign() < 0 {
+			den.Neg(den)
+			num = mulTerm(num, big.NewInt(-1))
+		}
+		return mkRat(num, den)
+	case token.LSS:
+		return cmp("<")
+	case token.LEQ:
+		return cmp("<=")
+	case token.GTR:
+		return cmp(">")
+	case token.GEQ:
+		return cmp(">=")
+	case token.EQL:
+		return cmp("=")
+	case token.NEQ:
+		v, _ := cmp("=")
+		return notV(v), true
+	}
+	return nil, false
+}
+
 // ratCompare decides (num/den) op c exactly with integers when c*den is an integer (den > 0).
 func ratCompare(op token.Token, f symFloat, c float64, flipped bool) (value, bool) {
 	if f.num == nil || math.IsNaN(c) || math.IsInf(c, 0) {
@@ -535,6 +668,9 @@ func ratCompare(op token.Token, f symFloat, c float64, flipped bool) (value, boo
 }
 
 func (i *interpreter) symFloatBinop(op token.Token, x, y value) value {
+	if v, ok := ratBinop(op, x, y); ok {
+		return v
+	}
 	if xf, ok := x.(symFloat); ok {
 		if c, ok := y.(float64); ok {
 			if v, ok := ratCompare(op, xf, c, false); ok {
@@ -649,6 +785,15 @@ func (i *interpreter) iteValue(c *Term, a, b value) (value, bool) {
 			if af, ok := a.(float64); ok {
 				if bf, ok := b.(float64); ok && math.Float64bits(af) == math.Float64bits(bf) {
 					return a, true
+				}
+			}
+			if ra, ok := asRat(a); ok {
+				if rb, ok := asRat(b); ok {
+					g := new(big.Int).GCD(nil, nil, ra.den, rb.den)
+					den := new(big.Int).Div(new(big.Int).Mul(ra.den, rb.den), g)
+					if v, ok := mkRat(tIte(c, mulTerm(ra.num, new(big.Int).Div(den, ra.den)), mulTerm(rb.num, new(big.Int).Div(den, rb.den))), den); ok {
+						return v, true
+					}
 				}
 			}
 			return symFloat{t: tIte(c, fpTerm(a), fpTerm(b))}, true
